@@ -26,7 +26,8 @@ ASSUMPTIONS = [
     "on a kitty identity a background equal to the terminal's default background displays as default; the "
     "documented +-1 red workaround is required exactly for half-cells displayed through the background whose "
     "expected colour equals the terminal background",
-    "threshold semantics are three-valued between floor(t*255) and ceil(t*255)",
+    "threshold semantics (documented: 'the alpha ratio above which pixels are taken as opaque'): alpha/255 below "
+    "the threshold is transparent, above it opaque, and only exact equality is left open",
     "PIL's convert / resize(BOX) / alpha_composite are trusted for the resampled tier; the identity tier uses "
     "the generator's own arrays (PIL only for compositing semi-transparent pixels)",
 ]
@@ -79,7 +80,10 @@ def expected_pixels(rgba, alpha_mode, thr, hexbg, termbg):
                 out.append(cache[k])
             continue
         # threshold
-        lo, hi = math.floor(thr * 255), math.ceil(thr * 255)
+        # "the alpha ratio above which pixels are taken as opaque": a/255 < thr is transparent,
+        # a/255 > thr opaque; only exact equality (up to float noise) is left open
+        x = thr * 255
+        lo, hi = (round(x), round(x)) if abs(x - round(x)) < 1e-6 else (math.floor(x) + 1, math.floor(x))
         if a == 255:
             vis = col
         elif a == 0:
@@ -91,9 +95,9 @@ def expected_pixels(rgba, alpha_mode, thr, hexbg, termbg):
             vis = cache[k]
         if a < lo:
             out.append(None)
-        elif a > hi or (lo == hi and a >= lo):
+        elif a > hi:
             out.append(vis)
-        else:
+        else:  # a/255 == thr
             out.append(("either", vis))
     return out
 
